@@ -11,6 +11,11 @@ Part B (E2, through the wire): the same histories at small depth as real frames 
         `delete_router_references`; then one probe packet per destination network is sent from the
         application side: its next-hop MAC / LAN must be what the reference names, and if the reference knows
         no router the node must ask Who-Is-Router-To-Network instead of using a stale one.
+        The histories also contain application traffic for networks without a known path (the node holds the
+        packet and asks Who-Is-Router-To-Network), interleaved in every order with learning from routed
+        traffic, announcements, deletions and renumbering: from the moment the reference knows a path, every
+        held packet must have appeared on the wire towards a current next hop (once), and the probes show that
+        later packets do.
 """
 import inspect
 import itertools
@@ -38,20 +43,36 @@ PROPERTY = "C19"
 LEVEL = "model_checking"
 BUDGET = {"quick": 95.0, "thorough": 1200.0}
 RULE = ("part A: BFS over all histories of the alphabet {learn(port, router, dnets), forget router(port, router), "
-        "forget destinations(port, dnets), forget(router, non-empty subset of the dnets it is credited with), "
+        "forget destinations(port, dnets), forget(router, dnets) in its general form -- every router of the universe, with or "
+        "without a record, with every non-empty subset of the dnets it is credited with and with every destination list of the "
+        "universe whoever its members are credited to (another router, nobody) --, "
         "renumber(port -> a number no port uses)} on the real RouterInfoCache, each successor replayed on a fresh cache; "
         "a state is distinct by (port numbers, routers index sorted by (snet, address) with every field of every record, "
         "path index sorted by key with the identity relation path-record 'is' router-record); dict orders are merged "
         "because the cache only iterates them for order-independent updates; RouterInfo.snet is left out of the state only "
         "while the source of netservice.py never reads it (checked at import, otherwise it is kept). "
-        "part B: BFS over histories of real frames / node API calls into a real two-port NSAP node, state = the same "
-        "cache form + (adapter net, configured flag) in adapter-dict order; every state gets one probe per destination "
-        "network (+ one never announced) whose emitted frame is parsed by an independent NPCI parser. "
-        "A failing state is reported and not expanded.")
+        "part B: BFS over histories of real frames / node API calls into a real two-port NSAP node: the same alphabet plus "
+        "learning from the SADR of routed traffic plus send(dnet) = the application hands the node a packet for a network the "
+        "reference knows no path to (the node has to hold it and ask Who-Is-Router-To-Network), at most `held` packets held at a "
+        "time, interleaved with everything else in every order; state = the same cache form + (adapter net, configured flag) in "
+        "adapter-dict order + packets held per destination network (node and reference); after every operation the frames the "
+        "node put on its LANs are read by an independent NPCI parser: a held packet may only appear towards a current next hop "
+        "of the reference, once, and after an operation that names a destination as reachable (announcement, routed traffic) "
+        "nothing may be held for it any more; every state gets one probe per destination network (+ one never announced) = the "
+        "traffic sent afterwards. "
+        "A failing state is reported and not expanded -- except a state whose tables equal the reference and where only held "
+        "traffic is wrong (held-traffic-not-released / later-traffic-queued-behind-held-traffic): it is reported and expanded, so "
+        "that a second way of stranding traffic is reported under its own signature.")
 ASSUMPTIONS = [
     "single thread; the cache is a plain data structure, so a state is fully described by its two indexes",
-    "forget(router, dnets) is only issued for destinations currently credited to that router; renumbering only onto a "
-    "number no port uses (the statement does not say what else should happen)",
+    "forget(router, dnets) names pairs: it removes exactly the listed destinations that currently lead to that router and "
+    "nothing else (a listed destination of another router or of nobody is not touched); destination lists are never empty; "
+    "renumbering only onto a number no port uses (the statement does not say what else should happen)",
+    "'traffic sent afterwards follows the current knowledge' is read as: a packet handed to the node while a path is known is "
+    "on the wire towards that router at once; a packet handed over while no path is known is held (and Who-Is-Router-To-Network "
+    "is broadcast, once per network being waited for); from the moment a path is known -- by an announcement or by routed "
+    "traffic, whichever comes first -- nothing is held for that network: the held packets are on the wire towards the router, "
+    "each once.  Packets are never required to be dropped; the node's forwarding of other stations' routed traffic is not driven",
     "I-Am-Router-To-Network lists are non-empty and never name a directly attached network; SADR never names one either",
     "Network-Number-Is is sent as a local broadcast with the 'learned' flag (0); a port with a configured number is never "
     "asked to renumber",
@@ -62,11 +83,13 @@ ASSUMPTIONS = [
 BOUNDS = {
     "quick": "part A: 2 ports x 3 routers x 4 dnets, sets of <=2 dnets, pool of 3 network numbers, depth<=4; "
              "2 ports (one number unknown) x 2 routers x 3 dnets, every subset, to closure (frontier emptied); "
-             "part B: 3 node variants x (3 routers x 3 dnets, sets of <=2) depth<=3, 4 station probes per state",
+             "part B: 3 node variants x (3 routers x 3 dnets, sets of <=2, <=2 packets held) depth<=3, 4 station probes per state; "
+             "node with both numbers configured x (2 routers x 2 dnets, every subset, <=2 packets held) to closure, 3 probes per state",
     "thorough": "part A: 2 ports x 3 routers x 4 dnets, every non-empty subset, depth<=5; 2 ports x 3 routers x 3 dnets "
                 "to closure; 2 ports (one unknown) x 2 routers x 3 dnets to closure; "
-                "part B: 3 node variants x (3 routers x 4 dnets, every subset) depth<=3 with station + broadcast probes "
-                "(10 per state), and 3 node variants x (2 routers x 3 dnets, every subset) to closure with 4 probes per state",
+                "part B: 3 node variants x (3 routers x 4 dnets, every subset, <=2 packets held) depth<=3 with station + broadcast "
+                "probes (10 per state); 3 node variants x (2 routers x 2 dnets, every subset, <=2 packets held) to closure with 3 probes "
+                "per state; 3 node variants x (2 routers x 3 dnets, every subset, no held packets) to closure with 4 probes per state",
 }
 
 # RouterInfo.snet is written by the constructor; if nothing else in netservice.py mentions `.snet` it cannot
@@ -75,15 +98,22 @@ SNET_IS_READ = len(re.findall(r"\.snet\b", inspect.getsource(netservice))) > 1
 
 EXTRA_DNET = 99          # a destination nobody ever announces (always exercises the Who-Is-Router path)
 PROBE_MAC = b"\x63"
+SEND_TAG0 = 0x80         # application packets of the history carry the tag 0x80 + position, probes 1..0x7f
+APP_HEAD = b"\x10\x08\x09"
+# failures that leave the routing tables equal to the reference (only held traffic is wrong): such a state is reported
+# and still expanded, so that a second defect behind the first one is seen under its own signature
+HELD_ONLY = ("held-traffic-not-released", "probe:later-traffic-queued-behind-held-traffic")
 
 
 # ----------------------------------------------------------------------------- universes / alphabets
 
-def universe(name, start, pool, n_routers, dnets, max_set, seed=0, depth=5):
+def universe(name, start, pool, n_routers, dnets, max_set, seed=0, depth=5, held=0, variants=None):
     base = 0x0A + 0x10 * (seed % 4)
     return {"name": name, "start": list(start), "pool": list(pool),
             "routers": [bytes([base + i]).hex() for i in range(n_routers)],
-            "dnets": list(dnets), "max_set": max_set, "descending": bool(seed % 2), "depth": depth}
+            "dnets": list(dnets), "max_set": max_set, "descending": bool(seed % 2), "depth": depth,
+            "held": held,        # part B: at most this many application packets of the history held by the node at a time
+            "variants": None if variants is None else list(variants)}     # part B: node variants (None = all)
 
 
 def subsets(items, max_size=None):
@@ -115,9 +145,15 @@ def enabled_ops(u, routes, nets, wire=False, can_renumber=None):
             ops.append(("forget_dnets", p, ds))
     for p in ports:
         for r in u["routers"]:
+            # the combined form "forget (router, destinations)": every non-empty subset of what the router is credited
+            # with, and every destination list of the universe whoever its members are credited to (another router,
+            # nobody), for routers with and without a record
             mine = routes.dnets_of(nets[p], r)
-            for ds in subsets(mine):
-                ops.append(("forget_router_dnets", p, r, ds))
+            listed = set()
+            for ds in itertools.chain(subsets(mine), subsets(u["dnets"], u["max_set"])):
+                if ds not in listed:
+                    listed.add(ds)
+                    ops.append(("forget_router_dnets", p, r, ds))
     for p in ports:
         for new in u["pool"]:
             ok = (new not in nets) if can_renumber is None else can_renumber(p, new)
@@ -129,6 +165,8 @@ def enabled_ops(u, routes, nets, wire=False, can_renumber=None):
 def op_class(op, routes, nets):
     """Coarse class of an operation in a state: part of the failure signature and of the outcome labels."""
     kind = op[0]
+    if kind == "send":
+        return "send"
     snet = nets[op[1]]
     if kind in ("learn", "sadr"):
         ds = op[3] if kind == "learn" else (op[3],)
@@ -142,7 +180,15 @@ def op_class(op, routes, nets):
     if kind == "forget_dnets":
         return "forget-dnets"
     if kind == "forget_router_dnets":
-        return "forget-router-dnets-" + ("all" if list(op[3]) == routes.dnets_of(snet, op[2]) else "partial")
+        mine = routes.dnets_of(snet, op[2])
+        hit = [d for d in op[3] if d in mine]
+        rest = [d for d in op[3] if d not in mine]
+        name = "forget-router-dnets-" + ("none" if not hit else "all" if sorted(hit) == mine else "partial")
+        if any(routes.lookup(snet, d) is not None for d in rest):
+            name += "+dnets-of-other-routers"
+        elif rest:
+            name += "+unknown-dnets"
+        return name
     if kind == "renumber":
         return "renumber" if snet is not None else "renumber-from-unknown"
     raise ValueError(kind)
@@ -480,10 +526,25 @@ class Ctx(object):
     pass
 
 
+class RecWire(Wire):
+    """The controlled wire, additionally remembering every frame object put on a LAN (delivered or not)."""
+
+    def __init__(self):
+        Wire.__init__(self)
+        self.frames = []
+
+    def park(self, net, pdu):
+        n = len(self.inflight)
+        Wire.park(self, net, pdu)
+        if len(self.inflight) != n + 1:
+            raise HarnessError("C19 part B: the wire did not keep the frame in flight")
+        self.frames.append(self.inflight[-1])
+
+
 def b_build(variant, u):
     vclock.reset(0.0)
     ctx = Ctx()
-    ctx.wire = Wire()
+    ctx.wire = RecWire()
     ctx.lans = [CtlNetwork(ctx.wire, "lan0"), CtlNetwork(ctx.wire, "lan1")]
     ctx.nsap = NetworkServiceAccessPoint()
     ctx.nse = NetworkServiceElement()
@@ -505,13 +566,32 @@ def b_build(variant, u):
         st = Node(LocalStation(ANNOUNCER_MAC), ctx.lans[p], spoofing=True)
         bind(Sink(), st)
         ctx.testers.append(st)
-    ctx.wire.flush()        # the node's own startup announcements
+    b_quiet(ctx)            # the node's own startup announcements
     return ctx
+
+
+def b_quiet(ctx):
+    """wire.flush() -- everything in flight is delivered FIFO until the LANs are quiet -- except that a frame the node
+    itself put on a LAN is only taken off the wire: its sole receivers would be the tester stations, whose sinks ignore
+    everything (the frame stays in wire.frames and wire.log, where the oracles read it)."""
+    wire = ctx.wire
+    vclock.settle()
+    n = 0
+    while wire.inflight:
+        fr = wire.inflight[0]
+        if mac_of(fr.src) == NODE_MACS[ctx.lans.index(fr.net)].hex():
+            wire.drop(0)
+        else:
+            wire.deliver(0)
+            vclock.settle()
+        n += 1
+        if n > 100000:
+            raise vclock.Livelock("more than %d frames in one quiescence" % n)
 
 
 def b_send(ctx, port, mac_hex, octets, dest):
     ctx.testers[port].indication(PDU(octets, source=addr(mac_hex), destination=dest))
-    ctx.wire.flush()
+    b_quiet(ctx)
 
 
 def b_apply(ctx, real_nets, op, u):
@@ -536,6 +616,88 @@ def b_apply(ctx, real_nets, op, u):
         raise ValueError(kind)
 
 
+def app_payload(tag):
+    return APP_HEAD + bytes([tag & 0xFF])       # unconfirmed Who-Is-like request with a unique tail
+
+
+def b_hand_over(ctx, dnet, broadcast, tag):
+    """The application side hands one packet for dnet to the node (nothing is delivered on the LANs yet)."""
+    apdu = UnconfirmedRequestPDU(8)
+    apdu.put_data(app_payload(tag)[2:])
+    apdu.pduDestination = RemoteBroadcast(dnet) if broadcast else RemoteStation(dnet, PROBE_MAC)
+    ctx.app.request(apdu)
+    vclock.settle()
+
+
+def b_traffic(ctx, node, op, tag, frames, judge_it):
+    """What the node put on its LANs during one operation of the history, as far as the application packets of the
+    history are concerned.  The reference's list of held packets is updated from the observation in every case;
+    the verdict (first broken rule or None) is only computed when judge_it.  Returns (bad, label)."""
+    data, whois = {}, []
+    bad = None
+    for fr in frames:
+        port = ctx.lans.index(fr.net)
+        if mac_of(fr.src) != NODE_MACS[port].hex():
+            continue                                    # put there by the tester
+        n = routeref.parse_npdu(fr.data)
+        if n is None:
+            if bad is None and judge_it:
+                bad = ("emits-malformed-npdu", {"frame": fr.data.hex()})
+            continue
+        dst = "*" if fr.dst.addrType == 1 else mac_of(fr.dst)
+        pl = n["payload"]
+        if n["msg"] is None and len(pl) == 4 and pl[:3] == APP_HEAD and pl[3] >= SEND_TAG0:
+            data.setdefault(pl[3], []).append((port, dst, n))
+        elif n["msg"] == routeref.MSG_WHO_IS_ROUTER and len(pl) == 2:
+            whois.append((port, dst, int.from_bytes(pl, "big")))
+    expect = node.hand_over(op[1], tag) if op[0] == "send" else None
+    released = 0
+    for t in sorted(data):
+        occ = data[t]
+        if t not in node.tags:
+            if bad is None and judge_it:
+                bad = ("emits-application-packet-nobody-handed-over", {"tag": t, "data_frames": [(p, a) for p, a, _ in occ]})
+            continue
+        d = node.tags[t]
+        hops = node.next_hops(d)
+        info = {"dnet": d, "packet": t - SEND_TAG0, "reference_next_hops": hops, "data_frames": [(p, a) for p, a, _ in occ]}
+        first = node.seen_on_wire(t)
+        released += 1
+        if bad is not None or not judge_it:
+            continue
+        port, dst, n = occ[0]
+        if not first or len(occ) > 1:
+            bad = ("held-traffic-sent-more-than-once", info)
+        elif not hops:
+            bad = ("held-traffic-sent-via-router-the-reference-does-not-know", info)
+        elif (port, dst) not in hops:
+            bad = ("held-traffic-sent-on-the-wrong-port" if dst in [h[1] for h in hops] else "held-traffic-sent-to-wrong-next-hop", info)
+        elif n["dnet"] != d or n["dadr"] != PROBE_MAC:
+            bad = ("held-traffic-destination-address-altered", dict(info, dnet_on_wire=n["dnet"], dadr_on_wire=(n["dadr"] or b"").hex()))
+    label = None
+    if op[0] == "send":
+        d = op[1]
+        label = expect if expect == "forward" else "held" + ("+who-is-router" if any(w[1] == "*" and w[2] == d for w in whois) else "")
+        if bad is None and judge_it:
+            info = {"dnet": d, "packet": tag - SEND_TAG0, "reference_next_hops": node.next_hops(d), "who_is_router": whois}
+            if expect == "forward" and tag not in data:
+                bad = ("not-sent-although-a-router-is-known", info)
+            elif expect == "hold+ask" and not any(w[1] == "*" and w[2] == d for w in whois):
+                bad = ("no-who-is-router-for-unknown-destination", info)
+    elif op[0] in ("learn", "sadr"):
+        # the operation names these destinations as reachable through the speaking router: nothing may be held for them now
+        named = op[3] if op[0] == "learn" else (op[3],)
+        if released:
+            label = "releases-held-traffic"
+        if bad is None and judge_it:
+            for d in sorted(named):
+                if node.held(d):
+                    bad = ("held-traffic-not-released", {"dnet": d, "held_packets": [t - SEND_TAG0 for t in node.held(d)],
+                                                         "reference_next_hops": node.next_hops(d)})
+                    break
+    return bad, label
+
+
 def b_ref_apply(node, op):
     if op[0] == "renumber":
         nets = [q.net for q in node.ports]
@@ -550,17 +712,15 @@ def b_probe(ctx, node, dnet, broadcast, serial, asked_before=False):
     """Send one packet from the application side towards dnet and judge what the node puts on its LANs.
     asked_before: an earlier probe to this unknown destination already made the node ask (a second
     Who-Is-Router is then not required, the packet joins the waiting list)."""
-    payload = bytes([0x10, 0x08, 0x09, serial & 0xFF])       # unconfirmed Who-Is-like request with a unique tail
-    apdu = UnconfirmedRequestPDU(8)
-    apdu.put_data(payload[2:])
-    apdu.pduDestination = RemoteBroadcast(dnet) if broadcast else RemoteStation(dnet, PROBE_MAC)
+    payload = app_payload(serial)
+    if serial >= SEND_TAG0:
+        raise HarnessError("C19 part B: more probes than probe tags")
     try:
-        ctx.app.request(apdu)
-        vclock.settle()
+        b_hand_over(ctx, dnet, broadcast, serial)
     except Exception as err:
         return ("probe:raises-%s" % type(err).__name__, {"dnet": dnet, "exception": str(err)}), []
     frames = list(ctx.wire.inflight)
-    ctx.wire.flush()
+    b_quiet(ctx)
     data, whois, obs = [], [], []
     for fr in frames:
         port = ctx.lans.index(fr.net)
@@ -577,6 +737,9 @@ def b_probe(ctx, node, dnet, broadcast, serial, asked_before=False):
     info = {"dnet": dnet, "reference_next_hops": hops, "data_frames": [(p, d) for p, d, _ in data], "who_is_router": whois}
     if hops:
         if not data:
+            if node.held(dnet):
+                # only reachable behind a reported "held-traffic-not-released": the later packet joined the held ones
+                return ("probe:later-traffic-queued-behind-held-traffic", dict(info, held_packets=[t - SEND_TAG0 for t in node.held(dnet)])), obs
             return ("probe:not-sent-although-a-router-is-known", info), obs
         if len(data) > 1:
             return ("probe:sent-more-than-once", info), obs
@@ -596,9 +759,11 @@ def b_probe(ctx, node, dnet, broadcast, serial, asked_before=False):
     return None, obs
 
 
-def b_run(variant, u, hist, probes=True, broadcast_probes=False):
+def b_run(variant, u, hist, probes=True, broadcast_probes=False, probed=()):
     """Fresh node, replay the history as frames / API calls, judge the last operation, then probe.
-    Returns (bad or None, canonical state, NodeRef, op class, observation trace)."""
+    probed: hashes of canonical states this shard has already probed (a state is probed at its first visit in every shard,
+    a later transition into the same state only has its last operation judged).
+    Returns (bad or None, canonical state, NodeRef, op class, observation trace, swallowed)."""
     ctx = b_build(variant, u)
     node = NodeRef(VARIANTS[variant])
     real_nets = list(VARIANTS[variant])
@@ -611,14 +776,20 @@ def b_run(variant, u, hist, probes=True, broadcast_probes=False):
         before = real_table(cache, u) if last else None
         if last:
             cls = op_class(op, node.routes, [q.net for q in node.ports])
-        named = b_ref_apply(node, op)
+        named = set() if op[0] == "send" else b_ref_apply(node, op)
         n_err = len(ctx.wire.errors)
+        mark = len(ctx.wire.frames)
         try:
-            b_apply(ctx, real_nets, op, u)
+            if op[0] == "send":
+                b_hand_over(ctx, op[1], False, SEND_TAG0 + i)
+                b_quiet(ctx)
+            else:
+                b_apply(ctx, real_nets, op, u)
         except Exception as err:
             if last:
                 return ("raises-%s" % type(err).__name__, {"exception": "%s: %s" % (type(err).__name__, err)}), None, node, cls, obs, list(ctx.wire.errors)
             raise HarnessError("C19 part B: a prefix that was judged sound raised on replay: %r %r" % (hist, err))
+        tbad, tlabel = b_traffic(ctx, node, op, SEND_TAG0 + i, ctx.wire.frames[mark:], last)
         if last:
             bad = judge(cache, node.routes, before, named, u)
             if bad is None:
@@ -626,24 +797,30 @@ def b_run(variant, u, hist, probes=True, broadcast_probes=False):
                 want = [(q.net, q.configured) for q in node.ports]
                 if [g[0] for g in got] != [w[0] for w in want] or sorted(ctx.nsap.adapters, key=net_key) != sorted((w[0] for w in want), key=net_key):
                     bad = ("port-number-not-adopted", {"ports": got, "reference": want, "adapter_keys": sorted(ctx.nsap.adapters, key=net_key)})
+            if bad is None:
+                bad = tbad
             if bad is not None and len(ctx.wire.errors) > n_err:
                 bad = (bad[0] + "+swallowed-" + ctx.wire.errors[n_err].split(":")[0], dict(bad[1], swallowed=ctx.wire.errors[n_err:]))
+            if tlabel is not None:
+                obs.append(("traffic", tlabel))
     obs.append(("table", sorted(real_table(cache, u).items(), key=repr)))
     canon = (variant,
              tuple((a.adapterNet, a.adapterNetConfigured, mac_of(a.adapterAddr)) for a in ctx.nsap.adapters.values()),
              tuple(ctx.adapters.index(a) for a in ctx.nsap.adapters.values()),
-             tuple(sorted(ctx.nsap.pending_nets, key=repr)),
+             # what the node holds back per destination network (how many packets), and what the reference says is held
+             tuple(sorted(((k, len(v)) for k, v in ctx.nsap.pending_nets.items()), key=repr)),
+             node.held_counts(),
              cache_canon(cache),
              # over-approximation on purpose: every scalar attribute of the adapters, the access point and the cache
              # records, so that a field added by a change to the code (a memo, a counter) keeps states apart
              tuple(generic_canon(a, skip=GENERIC_SKIP) for a in ctx.nsap.adapters.values()),
              generic_canon(cache, skip=GENERIC_SKIP))
-    if bad is None and probes:
+    if bad is None and probes and (not probed or h64(("B", u["name"], canon)) not in probed):
         serial = 0
         for broadcast in ((False, True) if broadcast_probes else (False,)):
             for d in list(u["dnets"]) + [EXTRA_DNET]:
                 serial += 1
-                pbad, pobs = b_probe(ctx, node, d, broadcast, serial, asked_before=broadcast)
+                pbad, pobs = b_probe(ctx, node, d, broadcast, serial, asked_before=broadcast or bool(node.held(d)))
                 obs.append(("probe", d, broadcast, pobs))
                 if pbad is not None and bad is None:
                     bad = pbad
@@ -652,31 +829,45 @@ def b_run(variant, u, hist, probes=True, broadcast_probes=False):
     return bad, canon, node, cls, obs, ctx.swallowed
 
 
+def b_sends(u, node):
+    """Application traffic as part of the history: one packet to a destination network the reference knows no path to
+    (it will be held), as long as fewer than u['held'] packets are held in all.  Packets to networks with a known path
+    do not change the state and are what the probes of every state already are."""
+    if node.held_total() >= u.get("held", 0):
+        return []
+    return [("send", d) for d in u["dnets"] if not node.next_hops(d)]
+
+
 def b_expand(item, deadline):
     variant, u, hists, last_level, bprobes = item
     acc = Acc()
     nxt = {}
+    probed = set()
     checked_twice = 0
+    held_fails = 0
     for hist in hists:
         if time.time() > deadline:
             acc.cap("part B[%s/%s]: deadline inside frontier expansion" % (variant, u["name"]))
             break
         _, _, node, _, _, _ = b_run(variant, u, hist, probes=False)
         nets = [q.net for q in node.ports]
-        for op in enabled_ops(u, node.routes, nets, wire=True, can_renumber=node.can_renumber):
+        for op in b_sends(u, node) + enabled_ops(u, node.routes, nets, wire=True, can_renumber=node.can_renumber):
             h2 = hist + (op,)
-            bad, canon, n2, cls, obs, swallowed = b_run(variant, u, h2, broadcast_probes=bprobes)
+            bad, canon, n2, cls, obs, swallowed = b_run(variant, u, h2, broadcast_probes=bprobes, probed=probed)
             acc.transitions += len(h2) + sum(1 for o in obs if o[0] == "probe")
             acc.evaluations += 1
             acc.traces += 1
             for s in swallowed:
                 acc.swallowed[s.split(":")[0]] += 1
-            if checked_twice < 2 or bad is not None:
-                # the first executions of every shard are replayed once more, every failing one twice more
+            if bad is not None and bad[0] in HELD_ONLY:
+                held_fails += 1
+            if checked_twice < 2 or (bad is not None and (bad[0] not in HELD_ONLY or held_fails <= 3)):
+                # the first executions of every shard are replayed once more, every failing one twice more (of the failing
+                # states that are expanded nevertheless -- there can be very many behind one defect -- the first three per shard)
                 checked_twice += 1
                 differs = False
                 for _ in range(1 if bad is None else 2):
-                    again = b_run(variant, u, h2, broadcast_probes=bprobes)
+                    again = b_run(variant, u, h2, broadcast_probes=bprobes, probed=probed)
                     if (again[0], again[1], again[4]) != (bad, canon, obs):
                         differs = True
                         if bad is None and again[0] is not None:
@@ -692,13 +883,24 @@ def b_expand(item, deadline):
                 acc.outcome("B:" + sig)
                 acc.fail(sig, {"part": "B", "node": variant, "universe": u["name"], "history": h2, "broken": bad[0], "what": bad[1]},
                          {"part": "B", "variant": variant, "u": u, "hist": h2, "bprobes": bprobes})
-                continue
-            acc.outcome("B:%s:%s" % (cls, "changes" if n2.routes.table != node.routes.table or op[0] == "renumber" else "no-effect"))
-            for entry in obs:
-                if entry[0] == "probe":
-                    kinds = sorted({"who-is-router" if routeref.parse_npdu(bytes.fromhex(f[2]))["msg"] == 0 else "data" for f in entry[3]})
-                    acc.outcome("B:probe->%s" % "+".join(kinds or ["nothing"]))
+                if bad[0] not in HELD_ONLY or canon is None:
+                    continue
+                # the tables are the reference's, only held traffic is wrong: reported above, and expanded like a sound state
+                acc.add_info("B failing states expanded nevertheless (only held traffic wrong)", 1)
+            else:
+                if op[0] == "send":
+                    acc.outcome("B:send:%s" % "+".join(e[1] for e in obs if e[0] == "traffic"))
+                else:
+                    acc.outcome("B:%s:%s" % (cls, "changes" if n2.routes.table != node.routes.table or op[0] == "renumber" else "no-effect"))
+                    if ("traffic", "releases-held-traffic") in obs:
+                        acc.outcome("B:%s:releases-held-traffic" % cls)
+                for entry in obs:
+                    if entry[0] == "probe":
+                        kinds = sorted({"who-is-router" if routeref.parse_npdu(bytes.fromhex(f[2]))["msg"] == 0 else "data" for f in entry[3]})
+                        acc.outcome("B:probe->%s" % "+".join(kinds or ["nothing"]))
             k = h64(("B", u["name"], canon))
+            if bad is None:
+                probed.add(k)
             if k not in nxt:
                 nxt[k] = None if last_level else h2
     acc.info["next"] = list(nxt.items())
@@ -725,13 +927,16 @@ def plans(tier, seed):
     if tier == "quick":
         a = [universe("2p-3r-4d-sets<=2", (1, 2), (1, 2, 3), 3, (10, 11, 12, 13), 2, seed, depth=4),
              universe("2p(1 unknown)-2r-3d-closure", (1, None), (1, 2, 3), 2, (10, 11, 12), None, seed, depth=40)]
-        b = [(universe("wire-3r-3d-sets<=2", (), (1, 2, 3), 3, (10, 11, 12), 2, seed, depth=3), False)]
+        b = [(universe("wire-2r-2d-held<=2-closure", (), (1, 2, 3), 2, (10, 11), None, seed, depth=40, held=2,
+                       variants=("both-configured",)), False),
+             (universe("wire-3r-3d-sets<=2", (), (1, 2, 3), 3, (10, 11, 12), 2, seed, depth=3, held=2), False)]
     else:
         a = [universe("2p(1 unknown)-2r-3d-closure", (1, None), (1, 2, 3), 2, (10, 11, 12), None, seed, depth=60),
              universe("2p-3r-3d-closure", (1, 2), (1, 2, 3), 3, (10, 11, 12), None, seed, depth=60),
              universe("2p-3r-4d-all-subsets", (1, 2), (1, 2, 3), 3, (10, 11, 12, 13), None, seed, depth=5)]
-        b = [(universe("wire-3r-4d-all-subsets", (), (1, 2, 3), 3, (10, 11, 12, 13), None, seed, depth=3), True),
-             (universe("wire-2r-3d-closure", (), (1, 2, 3), 2, (10, 11, 12), None, seed, depth=60), False)]
+        b = [(universe("wire-3r-4d-all-subsets", (), (1, 2, 3), 3, (10, 11, 12, 13), None, seed, depth=3, held=2), True),
+             (universe("wire-2r-2d-held<=2-closure", (), (1, 2, 3), 2, (10, 11), None, seed, depth=60, held=2), False),
+             (universe("wire-2r-3d-closure", (), (1, 2, 3), 2, (10, 11, 12), None, seed, depth=60, held=0), False)]
     return a, b
 
 
@@ -755,17 +960,19 @@ def run(tier, seed, deadline):
     # simplest first: searches that run to closure (small universes), then the depth-bounded ones; every job gets an
     # equal share of what is left of the wall-clock budget, unused time rolls over to the later (larger) jobs
     jobs = [("A", None, u, None) for u in a_plans if u["depth"] >= 40] \
-        + [("B", v, u, bp) for (u, bp) in b_plans if u["depth"] >= 40 for v in VARIANTS] \
-        + [("B", v, u, bp) for (u, bp) in b_plans if u["depth"] < 40 for v in VARIANTS] \
+        + [("B", v, u, bp) for (u, bp) in b_plans if u["depth"] >= 40 for v in (u["variants"] or VARIANTS)] \
+        + [("B", v, u, bp) for (u, bp) in b_plans if u["depth"] < 40 for v in (u["variants"] or VARIANTS)] \
         + [("A", None, u, None) for u in a_plans if u["depth"] < 40]
     all_closed = True
     for i, (part, variant, u, bp) in enumerate(jobs):
-        remaining = deadline - time.time()
-        sub_deadline = time.time() + remaining / (len(jobs) - i)
+        t0 = time.time()
+        remaining = deadline - t0
+        sub_deadline = t0 + remaining / (len(jobs) - i)
         if part == "A":
             closed = part_a(acc, u, sub_deadline if i < len(jobs) - 1 else deadline)
         else:
             closed = part_b(acc, variant, u, sub_deadline if i < len(jobs) - 1 else deadline, bp)
+        acc.info["%s[%s%s] wall seconds" % (part, "" if variant is None else variant + "/", u["name"])] = round(time.time() - t0, 1)
         if u["depth"] >= 40:
             all_closed = all_closed and closed
     acc.closed = all_closed
